@@ -567,6 +567,12 @@ def rank_decode(ctx):
         if i == ref_phase and not override:
             ob.refute("all-ranks:p%d" % i, "refresh commands are steered to phase %d but cs_n there is not forced to all ranks under "
                       "sel == STEER_REFRESH: only one rank would be refreshed" % i, cs[0].loc if cs else None)
+        for l in override:
+            extra = [lkey(x) for x in multi.guard_lits(l, False)
+                     if not (x[1] and isinstance(x[0], Op) and x[0].op == "==" and isinstance(x[0].args[1], Const) and x[0].args[1].v == 3)]
+            if i == ref_phase and extra:
+                ob.refute("all-ranks-conditional:p%d" % i, "all ranks are selected under sel == STEER_REFRESH only together with %s: the refresher also sends precharge-all "
+                          "(and ZQCS) through this selector, and those must reach every rank too - otherwise REFRESH hits a rank whose banks are still open" % extra, l.loc)
         if i != ref_phase and override:
             ob.refute("all-ranks-wrong-phase:p%d" % i, "all-ranks override sits on phase %d but refresh is steered to phase %d" % (i, ref_phase), override[0].loc)
         dec = [l for l in multi.leaves if l.kind == "assign" and str(l.target).endswith(".i") and "rank_decoder" in str(l.target)
